@@ -75,8 +75,10 @@ PROCS = {
     'delete_resource': lambda sel: {'op': 'delete_resource', 'a': [sel]},
     'concatenate': lambda sel: S('concatenate', {'ident': ['id'], 's': []}, {'name': 'concat'}, **_k(sel)),
     'load': None,
+    'load_dp': None,            # the same selection applied to a data package on disk
 }
 core.FUNCS['drop'] = core.dataflows.base.schema_validator.drop
+core.FUNCS['clear_'] = core.dataflows.base.schema_validator.clear
 UNORDERED = {'parallelize'}
 
 SELECTORS = [
@@ -86,6 +88,8 @@ SELECTORS = [
     ('regex-star', 'a.*'),
     ('regex-alt', 'a|ab'),          # full match: a, ab only
     ('regex-class', 'a[bX.]*b'),
+    ('regex-quant', 'a{1,1}b'),             # a regular expression may contain a comma: selects ab only
+    ('regex-commaclass', 'a[,.X]b'),        # selects a.b and aXb
     ('absent', 'zz'),
     ('list1', ['a']), ('list1', ['a.b']),   # list element with a metacharacter: literal
     ('list2', ['a', 'ab']), ('list2', ['aXb', 'a']),
@@ -149,8 +153,8 @@ def run_one(proc, sel, names):
     with core.scratch_dir() as d:
         env = Env(d)
         pk = package(names)
-        if proc == 'load':
-            step = {'op': 'c10_load', 'state': pk, 'sel': sel}
+        if proc in ('load', 'load_dp'):
+            step = {'op': 'c10_load', 'state': pk, 'sel': sel, 'form': proc}
             steps = [step]
         else:
             steps = [{'op': 'from_state', 'state': pk}, PROCS[proc](sel)]
@@ -169,6 +173,15 @@ def _b_load(step, env):
     k = {}
     if step['sel'] != '$omit':
         k['resources'] = step['sel']
+    if step.get('form') == 'load_dp':
+        import os
+        out = os.path.join(env.scratch, 'c10dp')
+        st = State(copy.deepcopy(st.desc), st.rows)
+        for r in st.desc['resources']:
+            r['schema'].pop('primaryKey', None)         # (these rows repeat k on purpose; load() would enforce the key)
+        core.Flow(core.from_state(st), core.dataflows.set_type('bad', type='string', resources=None, on_error=core.FUNCS['clear_']),
+                  core.dataflows.dump_to_path(out)).process()
+        return core.dataflows.load(os.path.join(out, 'datapackage.json'), **k)
     return core.dataflows.load((desc, iters), **k)
 
 
@@ -237,6 +250,14 @@ def check_one(proc, selkind, sel, names):
         for n in exp_names:
             if gobs[n] != bobs[n]:
                 return V('untouched', 'resource %r changed' % n), 'wrong', True
+        return [], 'ok:%d' % len(want), nontrivial
+    if proc == 'load_dp':
+        if gnames != want:
+            return V('selection', 'loaded %r, specified %r' % (gnames, want)), 'wrong', True
+        for n in want:
+            # (the dump made 'bad' a text column and nulled nothing else: compare the identifying columns)
+            if [(core.dec(r)['id'], core.dec(r)['s'], core.dec(r)['k']) for r in gobs[n]['rows']] != [(r['id'], r['s'], r['k']) for r in res_rows(n)]:
+                return V('untouched', 'loaded resource %r differs from its source' % n), 'wrong', True
         return [], 'ok:%d' % len(want), nontrivial
     if proc == 'load':
         if gnames != want:
